@@ -108,7 +108,9 @@ def circuit_case(rng, thorough=False):
     return {'kind': 'circuit', 'circuit': base64.b64encode(pickle.dumps(c)).decode(), 'caps': caps,
             'dseed': rng.randint(0, 2**31 - 1), 'sseed': rng.randint(0, 2**31 - 1), 'sims': rng.choice([1, 2, 3, 5]),
             'strip': rng.random() < 0.3, 'reuse': rng.random() < 0.3, 'multi': rng.random() < 0.5,
-            'cuda': rng.random() < 0.25}
+            'cuda': rng.random() < 0.25,
+            # captured initial/final values do not depend on the capture time (None = the default: end of time)
+            'ctime': rng.choice([None, None, 0.0, 3.5, 12.0, 25.0, 60.0])}
 
 
 def run_circuit(case):
@@ -133,7 +135,8 @@ def run_circuit(case):
             fin[s_loc, s] = len(ents) % 2
     with common.quiet():
         ws.c_prop()
-        ws.c_to_s()
+        if case.get('ctime') is None: ws.c_to_s()
+        else: ws.c_to_s(time=np.float32(case['ctime']))
     return c, ws, reqs, ini, fin
 
 
